@@ -4,6 +4,7 @@ import (
 	"fmt"
 	"go/ast"
 	"go/token"
+	"go/types"
 	"sort"
 	"strconv"
 	"strings"
@@ -341,7 +342,7 @@ func fieldPath(v ssa.Value) string {
 
 // c13Placeholders: rule Q3.
 func c13Placeholders(c *Ctx, te *taintEngine) {
-	r, p := c.R, c.P
+	r := c.R
 	// the message parser: the function of the profile package that returns a struct with Expression and Variables
 	var parser *ssa.Function
 	for _, fn := range te.funcs {
@@ -358,102 +359,7 @@ func c13Placeholders(c *Ctx, te *taintEngine) {
 	}
 	key := FuncKey(parser)
 	c13MessageParserShape(c, parser, key)
-	// generator side: sprintf iff len(vars) > 0
-	var wrap *ssa.Function
-	for _, fn := range te.funcs {
-		if RelPkg(fn) != "internal/generator" {
-			continue
-		}
-		for _, b := range fn.Blocks {
-			for _, ins := range b.Instrs {
-				if call, ok := ins.(*ssa.Call); ok && funcFullName(ssaCalleeObj(call)) == "fmt.Sprintf" {
-					if f, ok := constStringOf(call.Call.Args[0]); ok && strings.Contains(f, "sprintf(") && strings.Contains(f, "message") {
-						wrap = fn
-						blk := call.Block()
-						okS := false
-						for d := blk; d != nil; d = d.Idom() {
-							if len(d.Preds) != 1 {
-								continue
-							}
-							pred := d.Preds[0]
-							if iff, ok := pred.Instrs[len(pred.Instrs)-1].(*ssa.If); ok && pred.Succs[0] == d {
-								if bo, ok := iff.Cond.(*ssa.BinOp); ok && (bo.Op == token.GTR || bo.Op == token.NEQ) {
-									if lc, ok := bo.X.(*ssa.Call); ok {
-										if bi, ok := lc.Call.Value.(*ssa.Builtin); ok && bi.Name() == "len" {
-											okS = true
-										}
-									}
-								}
-							}
-						}
-						r.Check(okS, "C13.Q3", FuncKey(fn)+"#sprintf-iff-variables", p.Pos(ins.Pos()), "the message is formatted with sprintf only when it has variables", "sprintf is not conditional on the message having variables")
-						// object.get(<focus>, "<expanded>", "null")
-						hasGet := false
-						for _, b2 := range fn.Blocks {
-							for _, i2 := range b2.Instrs {
-								if c2, ok := i2.(*ssa.Call); ok && funcFullName(ssaCalleeObj(c2)) == "fmt.Sprintf" {
-									if f2, ok := constStringOf(c2.Call.Args[0]); ok && strings.Contains(f2, "object.get(") && strings.Contains(f2, `"null"`) {
-										hasGet = true
-									}
-								}
-							}
-						}
-						r.Check(hasGet, "C13.Q3", FuncKey(fn)+"#variables-default-null", p.Pos(ins.Pos()), "each variable is fetched with object.get(<focus>, <iri>, \"null\")", "message variables are not fetched with object.get(…, \"null\")")
-					}
-				}
-			}
-		}
-	}
-	if wrap == nil {
-		r.Unknown("C13.Q3", "sprintf-template", "", "no `message := sprintf(...)` template found in the generator")
-		return
-	}
-	// the argument list has one element per recorded variable, in order: the loop over Message.Variables binds and appends
-	// unconditionally (the parser emitted one %v per element, so a skipped or merged element shifts or starves the verbs)
-	fd, _ := wrap.Syntax().(*ast.FuncDecl)
-	if fd == nil || fd.Body == nil {
-		r.Unknown("C13.Q3", FuncKey(wrap)+"#one-binding-per-variable", "", "no syntax for the function that formats messages")
-		return
-	}
-	found := false
-	ast.Inspect(fd.Body, func(n ast.Node) bool {
-		rs, ok := n.(*ast.RangeStmt)
-		if !ok {
-			return true
-		}
-		sel, ok := ast.Unparen(rs.X).(*ast.SelectorExpr)
-		if !ok || sel.Sel.Name != "Variables" {
-			return true
-		}
-		found = true
-		var conditional []string
-		appends := 0
-		for _, st := range rs.Body.List {
-			switch x := st.(type) {
-			case *ast.IfStmt, *ast.SwitchStmt, *ast.TypeSwitchStmt, *ast.ForStmt, *ast.RangeStmt, *ast.BranchStmt, *ast.ReturnStmt, *ast.SelectStmt, *ast.GoStmt, *ast.DeferStmt:
-				conditional = append(conditional, fmt.Sprintf("%T", x))
-			case *ast.AssignStmt:
-				for _, rhs := range x.Rhs {
-					if call, ok := rhs.(*ast.CallExpr); ok {
-						if id, ok := call.Fun.(*ast.Ident); ok && id.Name == "append" {
-							appends++
-						}
-					}
-				}
-			}
-		}
-		ast.Inspect(rs.Body, func(m ast.Node) bool {
-			if bs, ok := m.(*ast.BranchStmt); ok {
-				conditional = append(conditional, bs.Tok.String())
-			}
-			return true
-		})
-		r.Check(len(conditional) == 0 && appends >= 2, "C13.Q3", FuncKey(wrap)+"#one-binding-per-variable", p.Pos(rs.Pos()), "every element of Message.Variables is bound and appended to the sprintf arguments, unconditionally and in order", "the loop over the message's variables skips, merges or reorders elements ("+strings.Join(conditional, ", ")+"): the %v verbs and the sprintf arguments no longer correspond one to one")
-		return true
-	})
-	if !found {
-		r.Unknown("C13.Q3", FuncKey(wrap)+"#one-binding-per-variable", p.Pos(fd.Pos()), "no loop over Message.Variables in the function that formats messages")
-	}
+	c13MessageFormatterShape(c)
 }
 
 // c13MessageParserShape (Q3, parser side), decided on the value the message parser returns (E-sym), however its loops
@@ -588,4 +494,198 @@ func c13MessageParserShape(c *Ctx, parser *ssa.Function, key string) {
 	r.Check(len(pctWhy) == 0, "C13.Q3", key+"#percent", p.Pos(parser.Pos()), "% is doubled exactly when placeholders were found, before they are replaced", strings.Join(pctWhy, "; "))
 	r.Check(len(occWhy) == 0, "C13.Q3", key+"#every-occurrence", p.Pos(parser.Pos()), "every match is replaced by %v and recorded as a variable, unconditionally", strings.Join(occWhy, "; "))
 	r.Check(len(wholeWhy) == 0, "C13.Q3", key+"#replace-whole-match", p.Pos(parser.Pos()), "each whole {{…}} match is replaced by one %v", strings.Join(wholeWhy, "; "))
+}
+
+// c13MessageFormatterShape (Q3, generator side), decided on the lines the message-formatting function returns (E-sym).
+// With V the Variables of the message it is given:
+//   - one line `<name> := object.get(<focus>, "<iri>", "null")` is emitted for every element of V, unconditionally, and
+//     <name> is made from the element's position (the same property may occur twice, and each name is declared with :=);
+//   - `message := sprintf("<format>", message_vars)` is emitted exactly when there are variables, the plain
+//     `message := "<text>"` otherwise, and message_vars lists exactly those names, one per element of V, in order.
+func c13MessageFormatterShape(c *Ctx) {
+	r, p := c.R, c.P
+	gen := p.Pkg("internal/generator")
+	if gen == nil {
+		r.Unknown("C13.Q3", "sprintf-template", "", "package internal/generator not found")
+		return
+	}
+	inl := samePkgInline(gen)
+	inline := func(fn *types.Func) bool {
+		sig, ok := fn.Type().(*types.Signature)
+		return ok && inl(fn) && !returnsText(sig)
+	}
+	type found struct {
+		text   *Sym
+		whens  []*Sym
+		colls  []*Sym
+		inList *Sym
+	}
+	formatters := 0
+	for _, f := range gen.Syntax {
+		for _, d := range f.Decls {
+			fd, ok := d.(*ast.FuncDecl)
+			if !ok || fd.Body == nil || fd.Type.Params == nil {
+				continue
+			}
+			var msgPrm types.Object
+			for _, fl := range fd.Type.Params.List {
+				for _, nm := range fl.Names {
+					if o := gen.TypesInfo.Defs[nm]; o != nil && typeName(o.Type()) == "Message" {
+						msgPrm = o
+					}
+				}
+			}
+			if msgPrm == nil {
+				continue
+			}
+			var lists []*Sym
+			proto := &symWalker{Inline: inline}
+			proto.OnReturn = func(w *symWalker, ret *ast.ReturnStmt, results []*Sym) {
+				if w.depth == 0 {
+					for _, res := range results {
+						if res.K == symList {
+							lists = append(lists, res)
+						}
+					}
+				}
+			}
+			p.SymWalk(gen, fd, proto, nil)
+			isV := func(s *Sym) bool {
+				return s != nil && s.K == symField && s.Name == "Variables" && s.X != nil && s.X.K == symVar && s.X.Obj == msgPrm
+			}
+			var sprintfs, plains, gets, argLists []found
+			var walk func(parts []*Sym, whens, colls []*Sym)
+			walk = func(parts []*Sym, whens, colls []*Sym) {
+				for _, part := range parts {
+					switch part.K {
+					case symRepeat:
+						walk(part.Parts, whens, append(append([]*Sym{}, colls...), part))
+					case symWhen:
+						walk(part.Parts, append(append([]*Sym{}, whens...), part), colls)
+					default:
+						tpl := part.Template()
+						fnd := found{text: part, whens: whens, colls: colls}
+						switch {
+						case strings.Contains(tpl, "message := sprintf("):
+							sprintfs = append(sprintfs, fnd)
+						case strings.Contains(tpl, "message := \""):
+							plains = append(plains, fnd)
+						case strings.Contains(tpl, ":= object.get("):
+							gets = append(gets, fnd)
+						case strings.Contains(tpl, "message_vars := ["):
+							argLists = append(argLists, fnd)
+						}
+					}
+				}
+			}
+			for _, l := range lists {
+				walk(l.Parts, nil, nil)
+			}
+			if len(sprintfs) == 0 {
+				continue
+			}
+			formatters++
+			key := relOf(gen) + "." + fd.Name.Name
+			pos := p.Pos(fd.Pos())
+			// the collection an emptiness test speaks about counts the variables: V itself or [one entry per element of V]
+			countsV := func(x *Sym) bool {
+				if isV(x) {
+					return true
+				}
+				return x != nil && x.K == symList && len(x.Parts) == 1 && x.Parts[0].K == symRepeat && isV(x.Parts[0].X) && len(x.Parts[0].Parts) == 1
+			}
+			guard := func(fnd found) (nonEmpty, empty bool) {
+				for _, wh := range fnd.whens {
+					if wh.X == nil {
+						continue
+					}
+					if x, ok, isEmpty := (symCond{Cond: wh.X}).Emptiness(); ok && countsV(x) {
+						if isEmpty {
+							empty = true
+						} else {
+							nonEmpty = true
+						}
+					}
+				}
+				return
+			}
+			okS := true
+			why := ""
+			for _, sf := range sprintfs {
+				if ne, _ := guard(sf); !ne {
+					okS, why = false, "the sprintf line is not emitted under `the message has variables` (a count of its Variables, or of a list with one entry per variable, being non-zero): a message without placeholders would be used as a format, or one with placeholders printed raw"
+				}
+			}
+			if len(plains) == 0 {
+				okS, why = false, "no plain `message := \"…\"` line is emitted for messages without variables"
+			}
+			for _, pl := range plains {
+				if _, e := guard(pl); !e {
+					okS, why = false, "the plain message line is not emitted under `the message has no variables`"
+				}
+			}
+			r.Check(okS, "C13.Q3", key+"#sprintf-iff-variables", pos, "the message is formatted with sprintf exactly when it has variables", why)
+			// object.get(..., "null") once per variable
+			okGet, okOne := false, true
+			whyOne := ""
+			nameTpl := ""
+			for _, g := range gets {
+				tpl := g.text.Template()
+				if !strings.Contains(tpl, "\"null\")") {
+					continue
+				}
+				okGet = true
+				if len(g.colls) != 1 || !isV(g.colls[0].X) {
+					okOne, whyOne = false, "the object.get line is not emitted once for every element of the message's Variables"
+					continue
+				}
+				rep := g.colls[0]
+				if len(rep.Parts) != 1 || rep.Parts[0] != g.text {
+					okOne, whyOne = false, "the loop over the message's variables emits "+shortFormat(rep.String())+", not exactly one binding per element (skipped, filtered or merged elements shift or starve the %v verbs)"
+					continue
+				}
+				// the bound name: what precedes ` := object.get(`
+				nameTpl = strings.TrimSpace(tpl[:strings.Index(tpl, ":= object.get(")])
+				positional := false
+				g.text.Walk(func(q *Sym) {
+					if q.K == symIdx && isV(q.X) {
+						positional = true
+					}
+					if q.K == symCall && strings.Contains(q.Fn, "Genvar") {
+						positional = true
+					}
+				})
+				if !positional || !strings.Contains(nameTpl, "‹#") && !strings.Contains(nameTpl, "Genvar") {
+					okOne, whyOne = false, "the variable bound for each placeholder ("+shortFormat(nameTpl)+") is not named after the element's position: the same property can occur twice in a message, and a name declared twice with := does not compile"
+				}
+			}
+			r.Check(okGet, "C13.Q3", key+"#variables-default-null", pos, "each variable is fetched with object.get(<focus>, <iri>, \"null\")", "message variables are not fetched with object.get(…, \"null\")")
+			// the argument list
+			if len(argLists) == 0 {
+				okOne, whyOne = false, "no `message_vars := [...]` line is emitted"
+			}
+			for _, al := range argLists {
+				var reps []*Sym
+				al.text.Walk(func(q *Sym) {
+					if q.K == symRepeat {
+						reps = append(reps, q)
+					}
+				})
+				if len(reps) != 1 || !isV(reps[0].X) || len(reps[0].Parts) != 1 {
+					okOne, whyOne = false, "the sprintf arguments are "+shortFormat(al.text.String())+", not one name per element of the message's Variables, in order"
+					continue
+				}
+				if nameTpl != "" && strings.TrimSpace(reps[0].Parts[0].Template()) != nameTpl {
+					okOne, whyOne = false, "the sprintf arguments name "+shortFormat(reps[0].Parts[0].Template())+" but the bindings declare "+shortFormat(nameTpl)
+				}
+			}
+			if len(gets) == 0 {
+				okOne, whyOne = false, "no binding line is emitted for the message's variables"
+			}
+			r.Check(okOne, "C13.Q3", key+"#one-binding-per-variable", pos, "every element of Message.Variables is bound under a positional name and listed among the sprintf arguments, unconditionally and in order", whyOne)
+		}
+	}
+	if formatters == 0 {
+		r.Unknown("C13.Q3", "sprintf-template", "", "no function of the generator that is handed a Message returns a `message := sprintf(...)` line")
+	}
 }
